@@ -16,14 +16,23 @@
   * `dfs_subtree_contiguous` — in dfs mode a directory is immediately followed by its whole (pruned) subtree;
   * `events_count` — each entry of the tree occurs exactly once (unbounded depth: as many events as nodes);
   * `links_not_entered` — a symbolic link contributes its own row only.
-  Breadth-first mode (same set, no entry before one of smaller depth) and several roots are decided by the
-  correspondence (byte-exact against the model, which takes the `readdir` order from the snapshot) and by
-  the os.walk oracle; they are not theorems here.
+  Breadth-first mode (`Lemmas/WalkB.lean`):
+  * `bfs_root_exact` — for a root searched breadth-first (the default) with no streamed LIMIT, the result
+    state is exactly `check_file` folded over `levelOrder`: list a directory, then whatever was queued before
+    its sub-directories, then them; exactly the unlistable directories are recorded (`levelFaults`); the fuel
+    the model gives the queue loop (one per directory of the tree, plus one) is proved sufficient
+    (`bfsEvents_enough`; `levelOrder` itself is defined without fuel, by well-founded recursion);
+  * `bfs_same_entries_as_dfs` — the breadth-first report is a permutation of the depth-first report:
+    the same rows, each as often (so `events_are_window`, `events_count`, `links_not_entered` carry over);
+  * `bfs_levels_nondecreasing` — in bfs mode no entry precedes an entry of smaller depth.
+  Several roots are decided by the correspondence (byte-exact against the model, which takes the `readdir`
+  order from the snapshot) and by the os.walk oracle; they are not theorems here.
 -/
 import Fsel.Lemmas.Walk
+import Fsel.Lemmas.WalkB
 
 namespace Fsel.C01
-open Fsel WalkL
+open Fsel WalkL WalkB
 
 /-- the root call of `visit_dir` (depth-first) -/
 theorem dfs_root_exact (p : Plan) (rp : RootParams) (hl : NoLimit p) (path canon : Str) (kids : List Node) (st : WSt)
@@ -216,6 +225,85 @@ example :
   · simp [goodL, goodN, ofS]
   · simp [inodesL, inodesN]
   · simp
+
+/-! ### breadth-first mode -/
+
+/-- the root directory as the first queue item -/
+def rootItem (path canon : Str) (kids : List Node) : QItem := ⟨kids, true, path, canon⟩
+
+/-- `visit_dir(root)` followed by the queue loop, as `searchRoot` runs them -/
+def bfsRoot (p : Plan) (rp : RootParams) (path canon : Str) (kids : List Node) (st : WSt) : Except Abort WSt :=
+  match visitDirB p rp (rootItem path canon kids) st with
+  | .error a => .error a
+  | .ok st' => drainQueue p rp (Node.countDirsList kids + 1) st'
+
+theorem bfsRoot_eq_drain (p : Plan) (rp : RootParams) (path canon : Str) (kids : List Node) (st : WSt)
+    (hq : st.walk.queue = []) :
+    bfsRoot p rp path canon kids st =
+      drainQueue p rp (Node.countDirsList kids + 1 + 1)
+        { st with walk := { st.walk with queue := [rootItem path canon kids] } } := by
+  obtain ⟨res, walk⟩ := st
+  obtain ⟨visited, errPaths, errCount, queue, fresh, visitedDirs⟩ := walk
+  simp only at hq
+  subst hq
+  rw [drainQueue]
+  rfl
+
+/-- the root call of `visit_dir` in breadth-first mode and the queue loop after it -/
+theorem bfs_root_exact (p : Plan) (rp : RootParams) (hl : NoLimit p) (path canon : Str) (kids : List Node) (st : WSt)
+    (hq : st.walk.queue = [])
+    (hg : goodL kids) (hnd : (inodesL kids).Nodup) (hfresh : ∀ i ∈ inodesL kids, i ∉ st.walk.visited) :
+    match foldReport p rp st.res (levelOrder rp [rootItem path canon kids]) with
+    | .error a => bfsRoot p rp path canon kids st = .error a
+    | .ok rs' => ∃ w', bfsRoot p rp path canon kids st = .ok { res := rs', walk := w' } ∧
+        w'.errPaths = st.walk.errPaths ++ levelFaults rp [rootItem path canon kids] ∧
+        w'.errCount = st.walk.errCount + (levelFaults rp [rootItem path canon kids]).length := by
+  rw [bfsRoot_eq_drain p rp path canon kids st hq]
+  have hsz : qSize [rootItem path canon kids] ≤ Node.countDirsList kids + 1 + 1 := by
+    rw [qSize_cons, qSize_nil]; simp only [rootItem]; omega
+  obtain ⟨he, hf⟩ := bfsEvents_enough rp _ _ hsz
+  have hqi : qInos [rootItem path canon kids] = inodesL kids := by simp [qInos, rootItem]
+  have h := drain_exact p rp hl (Node.countDirsList kids + 1 + 1)
+    { st with walk := { st.walk with queue := [rootItem path canon kids] } }
+    (by intro it hit; simp only [List.mem_singleton] at hit; subst hit; exact hg)
+    (by simpa [hqi] using hnd)
+    (by simpa [hqi] using hfresh)
+  simp only [he, hf] at h
+  exact h
+
+/-- **bfs and dfs return the same set**: the level order of the root is a permutation of the pre-order -/
+theorem bfs_same_entries_as_dfs (rp : RootParams) (path canon : Str) (kids : List Node)
+    (hroot : 1 < canon.length) (hbase : rp.base = calcDepth canon) (hg : goodL kids) :
+    (levelOrder rp [rootItem path canon kids]).Perm (eventsL rp path canon 1 kids) := by
+  have hw : QWf rp [rootItem path canon kids] := by
+    intro it hit; simp only [List.mem_singleton] at hit; subst hit
+    exact ⟨hg, hroot, by simp [rootItem, hbase]⟩
+  have h := levelOrder_perm rp _ hw
+  have hd : itemDepth rp (rootItem path canon kids) = 1 := by simp [itemDepth, rootItem, hbase]
+  simp only [List.flatMap_cons, List.flatMap_nil, List.append_nil, subtree] at h
+  rw [hd] at h
+  simpa [rootItem] using h
+
+/-- **bfs order**: no entry precedes an entry of smaller depth -/
+theorem bfs_levels_nondecreasing (rp : RootParams) (path canon : Str) (kids : List Node)
+    (hroot : 1 < canon.length) (hbase : rp.base = calcDepth canon) (hg : goodL kids) :
+    (levelOrder rp [rootItem path canon kids]).Pairwise (fun a b => a.2.2 ≤ b.2.2) := by
+  have hw : QWf rp [rootItem path canon kids] := by
+    intro it hit; simp only [List.mem_singleton] at hit; subst hit
+    exact ⟨hg, hroot, by simp [rootItem, hbase]⟩
+  refine levelOrder_sorted rp _ hw ⟨List.pairwise_singleton _ _, ?_⟩
+  intro x hx y hy
+  simp only [List.mem_singleton] at hx hy
+  subst hx; subst hy; omega
+
+/-- `searchRoot` in bfs mode is `bfsRoot` on the root item (the model's own call, unfolded) -/
+theorem searchRoot_bfs (p : Plan) (root : Root) (e : Entry) (kids : List Node) (canon : Str) (st : WSt)
+    (hb : (rootParams root canon).bfs = true) :
+    searchRoot p root (.dir e true kids canon) st =
+      bfsRoot p (rootParams root canon) root.path canon kids
+        { st with walk := markVisited { st.walk with queue := [] } e.ino } := by
+  simp only [searchRoot, hb, if_true, bfsRoot, rootItem]
+  rfl
 
 /-- the root "/" is excluded for a reason (D58): `calc_depth` counts slashes, and "/" and "/usr" both
     have one, so a child of "/" is not seen as one level deeper -/
